@@ -14,6 +14,7 @@ import (
 	"sort"
 	"strconv"
 	"strings"
+	"sync"
 	"time"
 
 	"github.com/RoaringBitmap/roaring"
@@ -487,6 +488,10 @@ func (w *World) convertProto(start *mdisk, segdocs map[uint64][]DV) *pconv {
 			c.dirOracle = append(c.dirOracle, fmt.Sprintf("%s %s %d", e.Note, e.Item, e.ID))
 		case "load-err", "list-err":
 			emit("PFault")
+		case "writer-close-start":
+			// from here on a pending safe batch may be answered with the "closed" error: the monitor's
+			// only notion of "an error may be reported now" is the fault flag
+			emit("PFault")
 		case "remove-err":
 			emit(fmt.Sprintf("PRemoveErr %s %d", cq.B(e.Item == ".snp"), e.ID))
 		}
@@ -917,6 +922,49 @@ func protoScenario(cw *cq.Writer, w *World, rng *rand.Rand, mode string, faults 
 			cw.OracleFail("second-writer-harmed-first", "the first writer fails a batch after a refused second OpenWriter: "+err.Error(), desc)
 		}
 		waitQuiet(w.Rec, 5*time.Millisecond, 600*time.Millisecond)
+	}
+	if mode == "c02" && !w.O.Unsafe && rng.Intn(3) == 0 {
+		// Close racing with safe batches: a batch that returns nil must be durable whatever Close does; batches
+		// that never return (the writer stopped before persisting them) are abandoned, not counted
+		desc["close_race"] = true
+		var wg sync.WaitGroup
+		stop := make(chan struct{})
+		for g := 0; g < 2; g++ {
+			wg.Add(1)
+			bs := []BatchSpec{w.GenBatch(), w.GenBatch(), w.GenBatch(), w.GenBatch()}
+			go func(bs []BatchSpec) {
+				defer wg.Done()
+				// a Batch that starts after Close has dropped the root dereferences nil: misuse outside the
+				// property (the call does not return nil), so it is only counted
+				defer func() {
+					if r := recover(); r != nil {
+						cw.Count("batch_after_close_panics", 1)
+					}
+				}()
+				for _, b := range bs {
+					select {
+					case <-stop:
+						return
+					default:
+					}
+					_ = w.Do(b, false)
+				}
+			}(bs)
+		}
+		time.Sleep(time.Duration(rng.Intn(3000)) * time.Microsecond)
+		cerr := w.Close()
+		close(stop)
+		done := make(chan struct{})
+		go func() { wg.Wait(); close(done) }()
+		select {
+		case <-done:
+		case <-time.After(300 * time.Millisecond):
+			desc["batches_left_blocked_by_close"] = true
+		}
+		if cerr != nil {
+			return fmt.Errorf("close: %w", cerr)
+		}
+		return nil
 	}
 	if err := w.Close(); err != nil {
 		return fmt.Errorf("close: %w", err)
